@@ -185,6 +185,8 @@ def leaf_check(world, origin, hist, label, bundle, monitors, stats, doc_log=None
   for k, v in ctx.extra.items():
     if isinstance(v, (int, float)) and not isinstance(v, bool):
       stats.extra[k] = stats.extra.get(k, 0) + v
+    elif isinstance(v, list):
+      stats.extra.setdefault(k, []).extend(v)
   return ok
 
 
